@@ -2,6 +2,7 @@ package main
 
 import (
 	"encoding/json"
+	"fmt"
 	"math/big"
 
 	"github.com/goblimey/go-ntrip/rtcm/utils"
@@ -17,6 +18,72 @@ type bitsCase struct {
 	Pos    uint   `json:"pos"`
 	Width  uint   `json:"width"`
 	Signed bool   `json:"signed"`
+	// a large buffer is described by its length and the seed of its contents
+	BigLen   int    `json:"big_len,omitempty"`
+	FillSeed uint64 `json:"fill_seed,omitempty"`
+	// history: what the same buffer (same backing array) held when the same field was
+	// extracted just before
+	PrevBuf string `json:"previous_contents,omitempty"`
+}
+
+func bigBuffer(n int, seed uint64) []byte {
+	r := ref.NewRand(seed)
+	b := make([]byte, n)
+	for i := 0; i+8 <= n; i += 8 {
+		v := r.Uint64()
+		b[i], b[i+1], b[i+2], b[i+3], b[i+4], b[i+5], b[i+6], b[i+7] = byte(v), byte(v>>8), byte(v>>16), byte(v>>24), byte(v>>32), byte(v>>40), byte(v>>48), byte(v>>56)
+	}
+	return b
+}
+
+// checkBig checks fields of a large buffer against the oracle applied to the few
+// bytes the field occupies (the oracle is position independent).
+func checkBig(c *child.Ctx, buf []byte, k bitsCase) {
+	first := k.Pos / 8
+	last := (k.Pos + k.Width - 1) / 8
+	window := buf[first : last+1]
+	rel := k.Pos - first*8
+	var want, got *big.Int
+	if k.Signed {
+		want = ref.BitsBigSigned(window, rel, k.Width)
+		got = big.NewInt(utils.GetBitsAsInt64(buf, k.Pos, k.Width))
+	} else {
+		want = ref.BitsBig(window, rel, k.Width)
+		got = new(big.Int).SetUint64(utils.GetBitsAsUint64(buf, k.Pos, k.Width))
+	}
+	if got.Cmp(want) != 0 {
+		cj, _ := json.Marshal(k)
+		c.Violate("wrong-value", "extraction of "+mk2(k.Pos, k.Width, k.Signed)+" from a buffer of "+fmt.Sprint(len(buf))+" bytes returned "+got.String()+", the addressed bits are "+want.String(), cj)
+	}
+	c.Count("large_buffer_extractions", 1)
+}
+
+// checkHistory extracts the same field twice from one backing array whose contents
+// change in between: each result must be that of the bits the buffer holds then.
+func checkHistory(c *child.Ctx, k bitsCase) {
+	prev, cur := unhex(k.PrevBuf), unhex(k.Buf)
+	buf := make([]byte, len(cur))
+	ext := func() *big.Int {
+		if k.Signed {
+			return big.NewInt(utils.GetBitsAsInt64(buf, k.Pos, k.Width))
+		}
+		return new(big.Int).SetUint64(utils.GetBitsAsUint64(buf, k.Pos, k.Width))
+	}
+	copy(buf, prev)
+	ext()
+	copy(buf, cur)
+	got := ext()
+	var want *big.Int
+	if k.Signed {
+		want = ref.BitsBigSigned(cur, k.Pos, k.Width)
+	} else {
+		want = ref.BitsBig(cur, k.Pos, k.Width)
+	}
+	if got.Cmp(want) != 0 {
+		cj, _ := json.Marshal(k)
+		c.Violate("wrong-value", "extraction of "+mk2(k.Pos, k.Width, k.Signed)+" returned "+got.String()+", the addressed bits are "+want.String()+" (the same field had just been extracted from the same buffer when it held other contents)", cj)
+	}
+	c.Count("refilled_buffer_extractions", 1)
 }
 
 func (k bitsCase) bytes() []byte {
@@ -92,7 +159,14 @@ func monC14(c *child.Ctx, replay json.RawMessage) {
 		var k bitsCase
 		json.Unmarshal(replay, &k)
 		c.Begin(replay)
-		checkBits(c, k.bytes(), k.Pos, k.Width, k.Signed)
+		switch {
+		case k.BigLen > 0:
+			checkBig(c, bigBuffer(k.BigLen, k.FillSeed), k)
+		case k.PrevBuf != "":
+			checkHistory(c, k)
+		default:
+			checkBits(c, k.bytes(), k.Pos, k.Width, k.Signed)
+		}
 		c.Eval(1, true)
 		return
 	}
@@ -210,5 +284,68 @@ func monC14(c *child.Ctx, replay json.RawMessage) {
 		pos := uint(r.Range(0, blen*8-int(width)))
 		signed := width >= 2 && r.Chance(1, 2)
 		one(buf, pos, width, signed)
+	}
+	// refilled buffers: the same field of the same backing array, contents changed
+	// in between (a read buffer reused for the next frame)
+	nh := c.Share(c.Pick(400000, 8000000))
+	for i := 0; i < nh && c.NViolations() == 0; i++ {
+		blen := r.Range(1, 16)
+		prev := r.Bytes(blen)
+		cur := r.Bytes(blen)
+		maxw := blen * 8
+		if maxw > 64 {
+			maxw = 64
+		}
+		width := uint(r.Range(1, maxw))
+		pos := uint(r.Range(0, blen*8-int(width)))
+		if i%3 == 0 {
+			// only the field's first or last bit differs
+			copy(cur, prev)
+			b := pos
+			if i%2 == 0 {
+				b = pos + width - 1
+			}
+			cur[b/8] ^= 1 << (7 - b%8)
+		}
+		k := bitsCase{Buf: hexs(cur), PrevBuf: hexs(prev), Pos: pos, Width: width, Signed: width >= 2 && r.Chance(1, 2)}
+		checkHistory(c, k)
+		c.EvalN(1)
+	}
+	// large buffers: fields next to every multiple of 64 KiB (and of 16 MiB in the
+	// thorough tier), where a narrow index type would wrap
+	if c.Batch == 0 || c.Thorough() {
+		sizes := []int{65535, 65536, 65537, 65544, 131072 + 9, 262144 + 9, 1<<20 + 9}
+		if c.Thorough() && c.Batch%8 == 0 {
+			sizes = append(sizes, 1<<24+9, 1<<25+9, 1<<29+9)
+		}
+		for _, n := range sizes {
+			seed := r.Uint64() >> 1
+			buf := bigBuffer(n, seed)
+			var edges []int
+			for e := 65536; e < n; e *= 2 {
+				edges = append(edges, e)
+			}
+			edges = append(edges, n)
+			for _, e := range edges {
+				for j := 0; j < 600; j++ {
+					width := uint(r.Range(1, 64))
+					// a field starting up to 9 bytes before the edge, possibly straddling it
+					lo := e*8 - 72
+					hi := e*8 + 8
+					if hi+64 > n*8 {
+						hi = n*8 - int(width)
+					}
+					if lo < 0 || hi < lo {
+						continue
+					}
+					pos := uint(r.Range(lo, hi))
+					if int(pos+width) > n*8 {
+						continue
+					}
+					checkBig(c, buf, bitsCase{BigLen: n, FillSeed: seed, Pos: pos, Width: width, Signed: width >= 2 && j%2 == 0})
+					c.EvalN(1)
+				}
+			}
+		}
 	}
 }
